@@ -30,6 +30,7 @@ package bstree
 
 //@ func (*bstree.Node).upsert
 //@   opt group-hyps
+//@   opt functional-hints
 //@   property C04 C01
 //@   lock b.mu : W
 //@   ghost-param repr map[*Node]set[*Node]
@@ -165,6 +166,7 @@ package bstree
 //@   property C04 C01
 //@   opt nil-receiver
 //@   opt group-hyps
+//@   opt functional-hints
 //@   lock b.mu : W
 //@   ghost-param repr map[*Node]set[*Node]
 //@   ghost-param keys map[*Node]set[K]
